@@ -271,10 +271,28 @@ class _RScope:
     parameters: name -> (argument expression, scope of the caller).  `site` is the line in `_parse_url` of the call
     that leads here (None for `_parse_url` itself)."""
 
-    def __init__(self, fn, params, site, depth):
+    def __init__(self, ctx, fn, params, site, depth):
         self.fn, self.params, self.site, self.depth = fn, params, site, depth
         self.defs = local_defs(fn.node)
         self.pm = fn.module.parents()
+        self.g = ctx.cfg(fn)
+        self._rd = None
+
+    def reaching(self, expr, name):
+        """values of the plain assignments `name = <value>` that can reach the evaluation of `expr` (a local name may be
+        re-used: `for key, value in ...` earlier, `value = components[comp]` here); (value, cfg node) pairs; None when
+        some reaching definition is not a plain assignment (loop target, parameter, unpacking)."""
+        from ._helpers_rob_c2 import ReachingDefs
+        from ..cfg import no_exc
+        if self._rd is None:
+            self._rd = ReachingDefs(self.g, self.fn.node, edge_ok=no_exc)
+        nodes = self.g.nodes_containing(expr)
+        if not nodes:
+            return None
+        ds = self._rd.at(nodes[0], name)
+        if not ds or any(d.kind != "assign" or d.path != () or d.value is None for d in ds):
+            return None
+        return [d.value for d in ds]
 
 
 def _reader_scopes(ctx, f):
@@ -282,7 +300,7 @@ def _reader_scopes(ctx, f):
     cache = ctx.__dict__.setdefault("_c20_reader_scopes", {})
     if f.key in cache:
         return cache[f.key]
-    out, work, seen = [], [_RScope(f, {}, None, 0)], {f.key}
+    out, work, seen = [], [_RScope(ctx, f, {}, None, 0)], {f.key}
     while work:
         sc = work.pop(0)
         out.append(sc)
@@ -299,7 +317,7 @@ def _reader_scopes(ctx, f):
             params = {p: (arg, sc) for p, arg in list(zip(pos, c.args)) + [(k.arg, k.value) for k in c.keywords]}
             seen.add(target.key)
             ctx.functions_analysed.add(target.key)
-            work.append(_RScope(target, params, c.lineno if sc.site is None else sc.site, sc.depth + 1))
+            work.append(_RScope(ctx, target, params, c.lineno if sc.site is None else sc.site, sc.depth + 1))
     cache[f.key] = out
     return out
 
@@ -364,6 +382,12 @@ def _groups_of(expr, sc, depth=0):
             return _groups_of(arg, parent, depth + 1)
         if expr.id in sc.defs:
             return _groups_of(sc.defs[expr.id], sc, depth + 1)
+        vals = sc.reaching(expr, expr.id)     # a re-used local: the assignments that reach this use
+        if vals:
+            out = set()
+            for v in vals:
+                out |= _groups_of(v, sc, depth + 1)
+            return out
     return set()
 
 
